@@ -312,9 +312,11 @@ func verifyArgsUsed(set *ProviderSet, used []*providerSetSrc) []error {
 		}
 	}
 	for _, f := range set.Fields {
+		// The fields listed by one wire.FieldsOf call are a single item: it
+		// contributes if any of them does.
 		found := false
 		for _, u := range used {
-			if u.Field == f {
+			if u.Field == f || (u.Field != nil && f.call != nil && u.Field.call == f.call) {
 				found = true
 				break
 			}
